@@ -32,7 +32,11 @@ def stripZeros : Nat → Int → Int → Int × Int
   | f + 1, c, e => if c ≠ 0 ∧ c % 10 = 0 then stripZeros f (c / 10) (e + 1) else (c, e)
 
 def canonDec (c e : Int) : CEv :=
-  if c = 0 then .int 0 else let (c', e') := stripZeros (c.natAbs + 1) c e; .dec c' e'
+  if c = 0 then .int 0
+  else
+    let (c', e') := stripZeros (c.natAbs + 1) c e
+    -- an integer-valued decimal is that integer (numbers are compared by mathematical value)
+    if e' ≥ 0 then .int (c' * 10 ^ e'.toNat) else .dec c' e'
 
 def canonFloat (b : Nat) : CEv :=
   if F.isNaN64 b then .nan (!F.quiet64 b)
@@ -147,5 +151,29 @@ def canon (keepComments : Bool) : List Ev → List CEv
     | .arrayData _ => .malformed "stray data" :: canon keepComments es
 termination_by es => es.length
 decreasing_by all_goals simp_wf <;> omega
+
+
+/-- a NaN array element keeps only its kind in CTE (`nan` / `snan`): canonical element per width -/
+def canonNaNElem (w : Nat) (e : Nat) : Nat :=
+  let (expMask, fracMask, quietBit, qnan, snan) : Nat × Nat × Nat × Nat × Nat :=
+    if w = 2 then (0x7f80, 0x7f, 0x40, 0x7fc0, 0x7f81)
+    else if w = 4 then (0x7f800000, 0x7fffff, 0x400000, 0x7fc00000, 0x7f800001)
+    else (0x7ff0000000000000, 0xfffffffffffff, 0x8000000000000, 0x7ff8000000000000, 0x7ff0000000000001)
+  if e &&& expMask = expMask ∧ e &&& fracMask ≠ 0 then (if e &&& quietBit ≠ 0 then qnan else snan) else e
+
+def canonNaNBytes (w : Nat) : Nat → Bytes → Bytes
+  | 0, d => d
+  | fuel + 1, d =>
+    if d.length < w then d
+    else leBytes w (canonNaNElem w (leNat (d.take w))) ++ canonNaNBytes w fuel (d.drop w)
+
+/-- the text format's notion of "same data": as `canon`, and NaN elements of float arrays by kind -/
+def canonText (keepComments : Bool) (evs : List Ev) : List CEv :=
+  (canon keepComments evs).map fun c =>
+    match c with
+    | .arr .f16 d => .arr .f16 (canonNaNBytes 2 d.length d)
+    | .arr .f32 d => .arr .f32 (canonNaNBytes 4 d.length d)
+    | .arr .f64 d => .arr .f64 (canonNaNBytes 8 d.length d)
+    | c => c
 
 end CE
